@@ -182,9 +182,33 @@ Error EmitHelper::emit_arg_move(
       dst.set_signature(OperandSignature{x ? RegTraits<RegType::kGp64>::kSignature : RegTraits<RegType::kGp32>::kSignature});
       _emitter->set_inline_comment(comment);
 
+      // Unsigned integers of up to 32 bits are zero extended by instructions that write a 32-bit register, which
+      // implicitly clears the upper 32 bits of the 64-bit register as well (UXTB, UXTH, LDRB, and LDRH only have
+      // this form).
+      bool zero_extend = src_type_id == TypeId::kUInt8 || src_type_id == TypeId::kUInt16 || src_type_id == TypeId::kUInt32;
+
       if (src.is_reg()) {
+        InstId inst_id = Inst::kIdMov;
         src.set_signature(dst.signature());
-        return _emitter->emit(Inst::kIdMov, dst, src);
+
+        // Sign or zero extend if the destination is wider than the source.
+        if (dst_size > src_size) {
+          switch (src_type_id) {
+            case TypeId::kInt8: inst_id = Inst::kIdSxtb; break;
+            case TypeId::kUInt8: inst_id = Inst::kIdUxtb; break;
+            case TypeId::kInt16: inst_id = Inst::kIdSxth; break;
+            case TypeId::kUInt16: inst_id = Inst::kIdUxth; break;
+            case TypeId::kInt32: inst_id = Inst::kIdSxtw; break;
+            default: break;
+          }
+
+          src.set_signature(OperandSignature{RegTraits<RegType::kGp32>::kSignature});
+          if (zero_extend) {
+            dst.set_signature(OperandSignature{RegTraits<RegType::kGp32>::kSignature});
+          }
+        }
+
+        return _emitter->emit(inst_id, dst, src);
       }
       else if (src.is_mem()) {
         InstId inst_id = Inst::kIdNone;
@@ -200,6 +224,11 @@ Error EmitHelper::emit_arg_move(
           default:
             return make_error(Error::kInvalidState);
         }
+
+        if (zero_extend) {
+          dst.set_signature(OperandSignature{RegTraits<RegType::kGp32>::kSignature});
+        }
+
         return _emitter->emit(inst_id, dst, src);
       }
     }
